@@ -103,7 +103,7 @@ func (c *scaleC) dump(ret string) string {
 	for n := range r.VerifProject().Processes {
 		proj = append(proj, n)
 		if pc, err := r.GetProcessInfo(n); err == nil {
-			info = append(info, fmt.Sprintf("%s:%s/%d/%d", pc.ReplicaName, pc.Name, pc.ReplicaNum, pc.Replicas))
+			info = append(info, ShowReplica(pc))
 		}
 	}
 	alive := 0
@@ -127,9 +127,15 @@ func (c *scaleC) dump(ret string) string {
 func (c *scaleC) Exec(op string) string {
 	w := strings.Fields(op)
 	switch {
-	case len(w) == 2 && w[0] == "scinit":
-		k, err := strconv.Atoi(w[1])
-		if err != nil || k < 0 {
+	case len(w) == 4 && w[0] == "scinit":
+		g, ok0 := parseLVars(w[1])
+		pw, ok1 := parseLProc(w[2])
+		po, ok2 := parseLProc(w[3])
+		if !ok0 || !ok1 || !ok2 {
+			return "bad-op"
+		}
+		yml, ok := ProjectYAML(g, []*lProc{pw, po})
+		if !ok {
 			return "bad-op"
 		}
 		c.h = &supH{}
@@ -138,8 +144,7 @@ func (c *scaleC) Exec(op string) string {
 			c.dir, _ = os.MkdirTemp("", "pcscale")
 		}
 		f := filepath.Join(c.dir, "pc.yaml")
-		yaml := fmt.Sprintf("processes:\n  w:\n    command: \"run {{.PC_REPLICA_NUM}}\"\n    replicas: %d\n  o:\n    command: \"other\"\n", k)
-		_ = os.WriteFile(f, []byte(yaml), 0o644)
+		_ = os.WriteFile(f, yml, 0o644)
 		prj, err := loader.Load(&loader.LoaderOptions{FileNames: []string{f}, IsInternalLoader: true})
 		if err != nil {
 			return "load-error"
@@ -209,7 +214,11 @@ func (c *scaleC) Gen(r *rand.Rand, tier string, emit func(string)) {
 	}
 	for k := 0; k < hist; k++ {
 		start := []int{1, 1, 2, 3, 9, 10, 11}[r.Intn(7)]
-		emit(fmt.Sprintf("scinit %d", start))
+		g := genLVars(r, []string{"V", "G"})
+		pw := strings.Join([]string{"w", strconv.Itoa(start), Hex([]string{"", "ns1"}[r.Intn(2)]), strconv.Itoa([]int{0, 7}[r.Intn(2)]),
+			Hex("run {{.PC_REPLICA_NUM}} " + genTpl(r, true)), "-", "-", Hex(genTpl(r, true)), "~", "~", genLVars(r, []string{"V", "L", "PORT"})}, ";")
+		po := "o;0;-;0;" + Hex("other") + ";-;-;-;~;~;~"
+		emit(fmt.Sprintf("scinit %s %s %s", g, pw, po))
 		cur := start
 		steps := 2 + r.Intn(6)
 		for i := 0; i < steps; i++ {
